@@ -859,6 +859,12 @@ class Normalizer:
             return P_atom(A("getitem", wrap(pb), fi))
         if op == "store":
             base, idx, val = a
+            # b[:k] = [e0, ..., e_{k-1}]  is  b[0] = e0; ...; b[k-1] = e_{k-1}
+            if isinstance(idx, Term) and idx.op == "slice" and _is_none_t(idx.args[0]) and _is_none_t(idx.args[2]) and isinstance(idx.args[1], Term) and idx.args[1].op == "const" and isinstance(val, Term) and val.op == "list" and isinstance(idx.args[1].args[0], (int, Fraction)) and not isinstance(idx.args[1].args[0], bool) and idx.args[1].args[0] == len(val.args) and 0 < len(val.args) <= 8:
+                t2 = base
+                for k_, e_ in enumerate(val.args):
+                    t2 = Term("store", t2, Term("const", Fraction(k_)), e_)
+                return self.nf(t2)
             # an index array obtained from a mask selects the same entries as the mask
             idx = _canon_idx_term(idx)
             # Z = 0; Z[:, m] = A[:, m] @ dg(u[m])   is   A @ dg(where(m, u, 0))   (column selection)
